@@ -55,4 +55,7 @@ def check(run, model, tier):
     # "the back" / "the front" of an active object's queue are what LockingDeque.append / appendleft make of them: one deque operation at that end, existing order kept
     run.rule('ENDS.locking', 'LockingDeque.append/appendleft put the item at the same-named end of the deque with one operation, leaving the pending events in order')
     queues.check_locking_deque(run, model, 'ENDS.locking', None, None)
+    run.rule('TOKEN.pairing', 'the consumer takes one wake-up token and at most one event per loop iteration (the precondition under which "token queue full" means "deque full" in append/appendleft)')
+    from sa.context import callgraph
+    queues.token_pairing(run, model, callgraph(model), 'TOKEN.pairing')
     run.assume('subscriber queues are deques or LockingDeques consumed from the left by next_rtc (C14)')
